@@ -156,9 +156,10 @@ def main():
         rbC = rb.pop('__constants__', {})
         try:
             with E.rebound(mod, **rb), E.rebound(C, **rbC), wb:
-                pth = E.explore(thunk, vl_pre if 'list' in owned else (), history=True, label=name)
+                pth = E.explore(thunk, vl_pre if 'list' in owned else (), history=True, label=name, max_paths=800)
         except S.EngineError as ex:
-            P.oblige('frame[%s]' % name, name, 'engine', dict(result='sat', backend='engine error: %s' % ex, ms=0), strict=True)
+            # outside the engine's reach (unsupported construct, path explosion): undecided here, never a verdict; the bounded layer still judges the function
+            P.oblige('frame[%s]' % name, name, 'engine', dict(result='engine: %s' % str(ex)[:120], backend='symbolic execution', ms=0), strict=True, soft=True)
             continue
         total_paths += len(pth)
         writes = list(wb.writes)
